@@ -8,6 +8,7 @@ import Kio.Model.TablePreds
 import Kio.Generated.Info
 import Kio.Model.Phantom
 import Kio.Generated.Bounds
+import Kio.Gen.Wire
 /-!
 Line-protocol driver (DESIGN §4.2): one request per line on stdin, one reply per line on stdout.
 Run with `lake env lean --run Driver.lean`.
@@ -183,6 +184,17 @@ def step (st : St) (line : String) : St × String :=
     | some t, some v =>
       (st, s!"ok {if isInstance Generated.bounds t v then 1 else 0} {repr (construct Generated.bounds t v)}")
     | _, _ => (st, "bad-op")
+  | "gen" :: ver :: toks =>
+    -- gen <version|all> <definition tokens…>
+    match Gen.parseMsgDef toks with
+    | some d =>
+      let vs := if ver = "all" then Gen.versionsOf d else (match ver.toNat? with | some v => [v] | none => [])
+      let pkg := Gen.strOfChars (Gen.packageName Generated.tables.builtins d)
+      let out := vs.map (fun v => match Gen.module d Generated.tables.builtins v with
+        | .ok gs => s!"v{v} ok {Gen.renderModule gs}"
+        | .error e => s!"v{v} err {repr e}")
+      (st, s!"ok {pkg} ## " ++ " ## ".intercalate out)
+    | none => (st, "bad-def")
   | ["idx_key", k] =>
     match k.toInt? with
     | some k => (st, match Generated.tables.nameFromKey k with
